@@ -36,7 +36,7 @@ ASSUMPTIONS = [
 ]
 SETTINGS: Dict[str, Dict[str, Any]] = {
     "quick": {"cases": 96, "budget_s": 60, "minimums": {"asset_year_sheets": 400, "chain_links": 200, "chain_to_non_adjacent_year": 40, "nontrivial": 40}},
-    "thorough": {"cases": 1000, "budget_s": 420, "minimums": {"asset_year_sheets": 4000, "chain_links": 2000, "chain_to_non_adjacent_year": 400, "nontrivial": 400}},
+    "thorough": {"cases": 2500, "budget_s": 420, "minimums": {"asset_year_sheets": 4000, "chain_links": 2000, "chain_to_non_adjacent_year": 400, "nontrivial": 400}},
 }
 
 
